@@ -234,10 +234,15 @@ func (p *pager) journalTx(s txShape, spillAfter int, rollback int) {
 				p.do(fmt.Sprintf("dbw %d %s", p.off(w), t))
 				spilledBeyond = w
 			}
-			segStart = ((joff-1)/int64(p.sector) + 1) * int64(p.sector)
-			recs = 0
-			p.do(fmt.Sprintf("jw %d %s", segStart, p.journalHeader(nRec0, nonce, n)))
-			joff = segStart + int64(p.sector)
+			if !p.nosync {
+				// (with synchronous=OFF SQLite's syncJournal does nothing at all: no record count,
+				// no new header — a no-sync journal has exactly one segment and later records
+				// follow the earlier ones directly)
+				segStart = ((joff-1)/int64(p.sector) + 1) * int64(p.sector)
+				recs = 0
+				p.do(fmt.Sprintf("jw %d %s", segStart, p.journalHeader(nRec0, nonce, n)))
+				joff = segStart + int64(p.sector)
+			}
 		}
 	}
 	finalize := func() {
